@@ -17,6 +17,9 @@ RANDOM_GEN_CFG = "users=2,provs=1,funds=25,timeout=2,price=10"
 # fixed coverage suite: exercises every required antecedent whatever the seed
 RANDOM_SCN = [dict(file="scenarios/random_cover.ndjson", cfg=RANDOM_GEN_CFG)]
 
+# histories recorded (VERIF_RECORD_DIR) and replayed by the cross-module checks C11 / C12
+RECORD = [dict(binary="random", n=T(3, 12), len=25, cfg="users=3,provs=2,funds=25,timeout=2")]
+
 PROPS = {
     "C18": ModuleCheck("random", "Random.tla", "RandomTrace.tla", "RandomTrace.cfg", RANDOM_CLAUSES_C18,
                        RANDOM_MC, RANDOM_GEN, RANDOM_RND, scenarios=RANDOM_SCN,
